@@ -24,11 +24,10 @@ def plan(prop, tier, seed):
             shards = [[s, str(i), str(nb), "quick", "bp"] for i in range(nb)]
             # FSST above the 32 KiB threshold is expensive under Miri: highly compressible kinds only
             # (measured: ~3 min for one 33 KB "repeat" array, > 15 min for kinds with many symbols)
-            # and 10-25 min for a 33 KB array with ~255 symbols such as the structured token corpora; that one runs
-            # in parallel with everything else and decides the wall time of the leg)
-            for j, kind in enumerate(["repeat", "below", "empty", "tokens"]):
-                shards.append([s, str(j), "4", "quick", "fsst", kind])
-            return "san28", shards, 2400
+            # and 10-25 min for a 33 KB array with ~255 symbols such as the structured token corpora: thorough only)
+            for j, kind in enumerate(["repeat", "below", "empty"]):
+                shards.append([s, str(j), "3", "quick", "fsst", kind])
+            return "san28", shards, 600
         nb = 12
         shards = [[s, str(i), str(nb), "thorough", "bp"] for i in range(nb)]
         kinds = ["text", "random", "all256", "repeat", "small", "huge", "boundary", "esc", "chunk511",
@@ -161,6 +160,10 @@ def main():
     prop, tier, seed = sys.argv[1], sys.argv[2], sys.argv[3]
     KNOWN.update(known_signatures(prop))
     os.makedirs(WORK, exist_ok=True)
+    if tier == "quick" and prop != "C28":
+        # lead's budget decision: sanitizer legs of the other properties are thorough-only
+        merge(prop, {"tool": "miri", "tier": tier, "status": "not_run_in_quick_tier"})
+        return 0
     pkg, shards, timeout = plan(prop, tier, seed)
     t0 = time.time()
     result = {"tool": "miri", "tier": tier}
@@ -171,7 +174,7 @@ def main():
     # make sure the package is built once (parallel shards would only queue on the build lock)
     try:
         b = subprocess.run(miri_cmd(pkg, ["0", "0", "1", "quick", "none"]), cwd=SAN, env=env(prop),
-                           stdout=subprocess.PIPE, stderr=subprocess.STDOUT, timeout=3600, text=True, errors="replace")
+                           stdout=subprocess.PIPE, stderr=subprocess.STDOUT, timeout=(900 if tier == "quick" else 5400), text=True, errors="replace")
         build_out, build_rc = b.stdout, b.returncode
     except subprocess.TimeoutExpired:
         build_out, build_rc = "build timeout", -9
@@ -189,8 +192,8 @@ def main():
         merge(prop, result)
         print("SAN-LEG %s miri inconclusive (build): %s" % (prop, note))
         return 0
-    par = int(os.environ.get("VERIF_SAN_PAR", os.environ.get("VERIF_THREADS", "12")))
-    par = max(1, min(par, 12))
+    par = int(os.environ.get("VERIF_SAN_PAR", os.environ.get("VERIF_THREADS", "16")))
+    par = max(1, min(par, 16))
     with ThreadPoolExecutor(max_workers=par) as ex:
         futs = [ex.submit(run_one, prop, pkg, a, i, timeout, seed) for i, a in enumerate(shards)]
         res = [f.result() for f in futs]
